@@ -1,12 +1,652 @@
 package main
 
+// Replay of solver counterexamples against the real code: the model's values
+// of the function's parameters are turned into Go literals, the real function
+// is called from an in-package test injected with `go test -overlay` (nothing
+// is written into the repository), and the failed clause is re-evaluated on the
+// concrete inputs and the observed outputs.
+
+import (
+	"bytes"
+	"context"
+	"encoding/json"
+	"fmt"
+	"go/types"
+	"os"
+	"os/exec"
+	"path/filepath"
+	"regexp"
+	"sort"
+	"strconv"
+	"strings"
+	"time"
+
+	"golang.org/x/tools/go/ssa"
+)
+
 type ReplayResult struct {
 	Confirmed bool              `json:"confirmed"`
 	Inputs    map[string]string `json:"inputs"`
 	Call      string            `json:"call"`
 	Output    string            `json:"output"`
 	Note      string            `json:"note"`
-	TestFile  string            `json:"test_file"`
+	TestFile  string            `json:"test_source"`
+	Command   string            `json:"command"`
 }
 
-func tryReplay(P *Program, v *Verifier, ob *Obligation) *ReplayResult { return nil }
+// sexp parsing ---------------------------------------------------------------
+
+type sx struct {
+	atom string
+	list []*sx
+}
+
+func parseSX(toks []string, i int) (*sx, int) {
+	if toks[i] == "(" {
+		n := &sx{}
+		i++
+		for toks[i] != ")" {
+			var c *sx
+			c, i = parseSX(toks, i)
+			n.list = append(n.list, c)
+		}
+		return n, i + 1
+	}
+	return &sx{atom: toks[i]}, i + 1
+}
+
+func (s *sx) String() string {
+	if s.list == nil {
+		return s.atom
+	}
+	var ps []string
+	for _, c := range s.list {
+		ps = append(ps, c.String())
+	}
+	return "(" + strings.Join(ps, " ") + ")"
+}
+
+// sxToTerm converts a ground value s-expression to a term of the given sort.
+func sxToTerm(s *sx, so *Sort) (*Term, error) {
+	switch so.Kind {
+	case KInt:
+		if s.list == nil {
+			v, err := strconv.ParseInt(s.atom, 10, 64)
+			if err != nil {
+				return nil, fmt.Errorf("bad int %q", s.atom)
+			}
+			return IntLit(v), nil
+		}
+		if len(s.list) == 2 && s.list[0].atom == "-" {
+			t, err := sxToTerm(s.list[1], so)
+			if err != nil {
+				return nil, err
+			}
+			return Neg(t), nil
+		}
+		if len(s.list) == 2 && s.list[0].atom == "ref" {
+			n, _ := strconv.ParseInt(s.list[1].atom, 10, 64)
+			return IntLit(replayRefBase + n), nil
+		}
+	case KArray:
+		if s.list != nil && s.list[0].atom == "arr" {
+			a := zeroTerm(so)
+			for i, e := range s.list[1:] {
+				t, err := sxToTerm(e, so.Elem)
+				if err != nil {
+					return nil, err
+				}
+				a = Store(a, IntLit(int64(i)), t)
+			}
+			return a, nil
+		}
+	case KBool:
+		if s.atom == "true" {
+			return TTrue, nil
+		}
+		if s.atom == "false" {
+			return TFalse, nil
+		}
+	case KString:
+		if strings.HasPrefix(s.atom, "\"") {
+			str := s.atom[1 : len(s.atom)-1]
+			str = strings.ReplaceAll(str, `""`, `"`)
+			re := regexp.MustCompile(`\\u\{([0-9a-fA-F]+)\}`)
+			str = re.ReplaceAllStringFunc(str, func(m string) string {
+				v, _ := strconv.ParseInt(re.FindStringSubmatch(m)[1], 16, 32)
+				return string(rune(v))
+			})
+			return StrLit(str), nil
+		}
+	case KReal:
+		if s.list == nil {
+			return RealLit(s.atom), nil
+		}
+		if len(s.list) == 3 && s.list[0].atom == "/" {
+			a, e1 := sxToTerm(s.list[1], so)
+			b, e2 := sxToTerm(s.list[2], so)
+			if e1 == nil && e2 == nil {
+				return RealLit(a.Str + "/" + b.Str), nil
+			}
+		}
+		if len(s.list) == 2 && s.list[0].atom == "-" {
+			a, e := sxToTerm(s.list[1], so)
+			if e == nil {
+				return RealLit("-" + a.Str), nil
+			}
+		}
+	case KDT:
+		if s.list == nil && s.atom == so.Ctor && len(so.Fields) == 0 {
+			return Mk(so), nil
+		}
+		if s.list != nil && s.list[0].atom == so.Ctor && len(s.list) == len(so.Fields)+1 {
+			args := make([]*Term, len(so.Fields))
+			for i, f := range so.Fields {
+				a, err := sxToTerm(s.list[i+1], f.Sort)
+				if err != nil {
+					return nil, err
+				}
+				args[i] = a
+			}
+			return Mk(so, args...), nil
+		}
+	}
+	return nil, fmt.Errorf("cannot read %s as %s", s, so.Name)
+}
+
+const replayRefBase = 7000000
+
+// Go literal generation -------------------------------------------------------
+
+type litGen struct {
+	own     *types.Package
+	imports map[string]string
+	heapVal func(cell *Sort, ref *Term) (*Term, error)
+	depth   int
+}
+
+func (g *litGen) qual(p *types.Package) string {
+	if p == g.own {
+		return ""
+	}
+	g.imports[p.Path()] = p.Name()
+	return p.Name()
+}
+
+func (g *litGen) typeStr(T types.Type) string { return types.TypeString(T, g.qual) }
+
+func (g *litGen) lit(t *Term, T types.Type) (string, error) {
+	g.depth++
+	defer func() { g.depth-- }()
+	if g.depth > 6 {
+		return "", fmt.Errorf("value too deep")
+	}
+	switch u := T.Underlying().(type) {
+	case *types.Basic:
+		switch {
+		case u.Info()&types.IsInteger != 0:
+			if !t.IsInt() {
+				return "", fmt.Errorf("non-literal int")
+			}
+			if !t.Int.IsInt64() && !t.Int.IsUint64() {
+				return "", fmt.Errorf("integer outside 64 bits")
+			}
+			return fmt.Sprintf("%s(%s)", g.typeStr(T), t.Int.String()), nil
+		case u.Info()&types.IsBoolean != 0:
+			return fmt.Sprintf("%s(%v)", g.typeStr(T), t.IsTrue()), nil
+		case u.Info()&types.IsString != 0:
+			if t.Op != "str" {
+				return "", fmt.Errorf("non-literal string")
+			}
+			return fmt.Sprintf("%s(%s)", g.typeStr(T), strconv.Quote(t.Str)), nil
+		case u.Info()&types.IsFloat != 0:
+			if t.Op != "real" {
+				return "", fmt.Errorf("non-literal real")
+			}
+			if strings.Contains(t.Str, "/") {
+				p := strings.SplitN(t.Str, "/", 2)
+				return fmt.Sprintf("%s(%s.0/%s.0)", g.typeStr(T), p[0], p[1]), nil
+			}
+			return fmt.Sprintf("%s(%s)", g.typeStr(T), t.Str), nil
+		}
+	case *types.Struct:
+		if t.Op != "mk" {
+			return "", fmt.Errorf("non-literal struct")
+		}
+		var fs []string
+		for i := 0; i < u.NumFields(); i++ {
+			f := u.Field(i)
+			if !f.Exported() && f.Pkg() != g.own {
+				return "", fmt.Errorf("unexported field %s of foreign type", f.Name())
+			}
+			s, err := g.lit(t.Args[i], f.Type())
+			if err != nil {
+				return "", err
+			}
+			fs = append(fs, f.Name()+": "+s)
+		}
+		return g.typeStr(T) + "{" + strings.Join(fs, ", ") + "}", nil
+	case *types.Pointer:
+		if t.IsInt() && t.Int.Sign() == 0 {
+			return "(" + g.typeStr(T) + ")(nil)", nil
+		}
+		if g.heapVal == nil {
+			return "", fmt.Errorf("pointer")
+		}
+		cell := sortOf(u.Elem())
+		val, err := g.heapVal(cell, t)
+		if err != nil {
+			return "", err
+		}
+		if _, ok := u.Elem().Underlying().(*types.Struct); !ok {
+			return "", fmt.Errorf("pointer to non-struct")
+		}
+		s, err := g.lit(val, u.Elem())
+		if err != nil {
+			return "", err
+		}
+		return "&" + s, nil
+	case *types.Array:
+		var es []string
+		for i := int64(0); i < u.Len(); i++ {
+			e := Select(t, IntLit(i))
+			s, err := g.lit(e, u.Elem())
+			if err != nil {
+				return "", err
+			}
+			es = append(es, s)
+		}
+		return g.typeStr(T) + "{" + strings.Join(es, ", ") + "}", nil
+	}
+	return "", fmt.Errorf("values of type %s are not constructible from a model", T)
+}
+
+// smtPrinter is Go source appended to the generated test: prints a value as an
+// SMT-LIB literal of govc's sort for its type.
+const smtPrinterSrc = `
+func govcSMT(v reflect.Value) string {
+	switch v.Kind() {
+	case reflect.Int, reflect.Int8, reflect.Int16, reflect.Int32, reflect.Int64:
+		if v.Int() < 0 {
+			return fmt.Sprintf("(- %d)", -v.Int())
+		}
+		return fmt.Sprint(v.Int())
+	case reflect.Uint, reflect.Uint8, reflect.Uint16, reflect.Uint32, reflect.Uint64:
+		return fmt.Sprint(v.Uint())
+	case reflect.Bool:
+		return fmt.Sprint(v.Bool())
+	case reflect.String:
+		return strconv.Quote(v.String())
+	case reflect.Struct:
+		t := v.Type()
+		name := "mk_T_" + govcSan(t.PkgPath()[strings.LastIndex(t.PkgPath(), "/")+1:]+"."+t.Name())
+		if t.PkgPath() == "" || t.Name() == "" {
+			return "?"
+		}
+		s := "(" + name
+		for i := 0; i < v.NumField(); i++ {
+			s += " " + govcSMT(v.Field(i))
+		}
+		if v.NumField() == 0 {
+			return name
+		}
+		return s + ")"
+	case reflect.Interface:
+		if v.IsNil() {
+			return "(mk_Iface 0 0)"
+		}
+		return "(mk_Iface 1 1)"
+	case reflect.Ptr:
+		if v.IsNil() {
+			return "0"
+		}
+		if v.Elem().Kind() != reflect.Struct {
+			return "?"
+		}
+		if id, ok := govcCells[v.Pointer()]; ok {
+			return fmt.Sprintf("(ref %d)", id)
+		}
+		id := len(govcCells) + 1
+		govcCells[v.Pointer()] = id
+		val := govcSMT(v.Elem())
+		t := v.Elem().Type()
+		fmt.Printf("GOVC-CELL %d T_%s %s\n", id, govcSan(t.PkgPath()[strings.LastIndex(t.PkgPath(), "/")+1:]+"."+t.Name()), val)
+		return fmt.Sprintf("(ref %d)", id)
+	case reflect.Array:
+		s := "(arr"
+		for i := 0; i < v.Len(); i++ {
+			s += " " + govcSMT(v.Index(i))
+		}
+		return s + ")"
+	}
+	return "?"
+}
+
+var govcCells = map[uintptr]int{}
+
+func govcSan(s string) string {
+	var b strings.Builder
+	for _, r := range s {
+		switch {
+		case r >= 'a' && r <= 'z', r >= 'A' && r <= 'Z', r >= '0' && r <= '9', r == '_':
+			b.WriteRune(r)
+		default:
+			b.WriteString("_")
+		}
+	}
+	return b.String()
+}
+`
+
+func tryReplay(P *Program, v *Verifier, ob *Obligation) *ReplayResult {
+	fn := ob.Fn
+	rr := &ReplayResult{Inputs: map[string]string{}}
+	if fn == nil || fn.Pkg == nil || ob.Result == nil || ob.Result.SMTFile == "" {
+		rr.Note = "no function or SMT file"
+		return rr
+	}
+	if fn.Signature.TypeParams() != nil || len(fn.TypeArgs()) > 0 || fn.Parent() != nil {
+		rr.Note = "generic functions and closures are not replayed"
+		return rr
+	}
+	key := funcKey(fn)
+	c := P.Contracts[key]
+	if c == nil {
+		rr.Note = "no contract"
+		return rr
+	}
+	// 1. model values of the parameters
+	smt, err := os.ReadFile(ob.Result.SMTFile)
+	if err != nil {
+		rr.Note = "SMT file unavailable"
+		return rr
+	}
+	text := string(smt)
+	var names []string
+	pterm := map[string]*ssa.Parameter{}
+	for _, p := range fn.Params {
+		n := fmt.Sprintf("p$%s@%s", p.Name(), sanitize(key))
+		if strings.Contains(text, smtName(n)) {
+			names = append(names, n)
+		}
+		pterm[n] = p
+	}
+	getValue := func(exprs []string) (map[string]*sx, error) {
+		q := strings.Replace(text, "(get-model)", "(get-value ("+strings.Join(exprs, " ")+"))", 1)
+		f := ob.Result.SMTFile + ".gv.smt2"
+		os.WriteFile(f, []byte(q), 0o644)
+		defer os.Remove(f)
+		ctx, cancel := context.WithTimeout(context.Background(), 40*time.Second)
+		defer cancel()
+		out, _ := exec.CommandContext(ctx, "z3-new", "-T:30", f).CombinedOutput()
+		s := string(out)
+		if !strings.HasPrefix(strings.TrimSpace(s), "sat") {
+			return nil, fmt.Errorf("solver did not reproduce the model: %s", truncate(s, 200))
+		}
+		s = s[strings.Index(s, "sat")+3:]
+		toks := tokenizeSExp(s)
+		if len(toks) == 0 {
+			return nil, fmt.Errorf("empty get-value answer")
+		}
+		root, _ := parseSX(toks, 0)
+		res := map[string]*sx{}
+		for i, pair := range root.list {
+			if i < len(exprs) && len(pair.list) == 2 {
+				res[exprs[i]] = pair.list[1]
+			}
+		}
+		return res, nil
+	}
+	vals := map[*ssa.Parameter]*Term{}
+	if len(names) > 0 {
+		var exprs []string
+		for _, n := range names {
+			exprs = append(exprs, smtName(n))
+		}
+		got, err := getValue(exprs)
+		if err != nil {
+			rr.Note = err.Error()
+			return rr
+		}
+		for _, n := range names {
+			p := pterm[n]
+			t, err := sxToTerm(got[smtName(n)], sortOf(p.Type()))
+			if err != nil {
+				rr.Note = "model value of " + p.Name() + ": " + err.Error()
+				return rr
+			}
+			vals[p] = t
+			rr.Inputs[p.Name()] = t.String()
+		}
+	}
+	for _, p := range fn.Params {
+		if _, ok := vals[p]; !ok {
+			vals[p] = zeroTerm(sortOf(p.Type())) // unconstrained by the query
+			rr.Inputs[p.Name()] = vals[p].String() + " (unconstrained)"
+		}
+	}
+	// 2. generate the test
+	heapCache := map[string]*Term{}
+	gen := &litGen{own: fn.Pkg.Pkg, imports: map[string]string{}}
+	gen.heapVal = func(cell *Sort, ref *Term) (*Term, error) {
+		hn := heapName(cell) + "@0"
+		k := hn + "#" + ref.String()
+		if t, ok := heapCache[k]; ok {
+			return t, nil
+		}
+		if !strings.Contains(text, smtName(hn)) {
+			t := zeroTerm(cell)
+			heapCache[k] = t
+			return t, nil
+		}
+		e := "(select " + smtName(hn) + " " + ref.String() + ")"
+		got, err := getValue([]string{e})
+		if err != nil {
+			return nil, err
+		}
+		t, err := sxToTerm(got[e], cell)
+		if err != nil {
+			return nil, err
+		}
+		heapCache[k] = t
+		rr.Inputs["*"+ref.String()+":"+cell.Name] = t.String()
+		return t, nil
+	}
+	var args []string
+	for _, p := range fn.Params {
+		s, err := gen.lit(vals[p], p.Type())
+		if err != nil {
+			rr.Note = "parameter " + p.Name() + " not constructible: " + err.Error()
+			return rr
+		}
+		args = append(args, s)
+	}
+	call := ""
+	if fn.Signature.Recv() != nil {
+		call = "(" + args[0] + ")." + fn.Name() + "(" + strings.Join(args[1:], ", ") + ")"
+	} else {
+		call = fn.Name() + "(" + strings.Join(args, ", ") + ")"
+	}
+	rr.Call = call
+	nres := fn.Signature.Results().Len()
+	var lhs []string
+	for i := 0; i < nres; i++ {
+		lhs = append(lhs, fmt.Sprintf("r%d", i))
+	}
+	var src bytes.Buffer
+	fmt.Fprintf(&src, "package %s\n\nimport (\n\t\"fmt\"\n\t\"reflect\"\n\t\"strconv\"\n\t\"strings\"\n\t\"testing\"\n", fn.Pkg.Pkg.Name())
+	var ips []string
+	for p := range gen.imports {
+		ips = append(ips, p)
+	}
+	sort.Strings(ips)
+	for _, p := range ips {
+		fmt.Fprintf(&src, "\t%s %q\n", gen.imports[p], p)
+	}
+	fmt.Fprintf(&src, ")\n\nvar _ = strconv.Quote\nvar _ = strings.Join\n\nfunc TestGovcReplay(t *testing.T) {\n\tdefer func() {\n\t\tif r := recover(); r != nil {\n\t\t\tfmt.Printf(\"GOVC-PANIC %%v\\n\", r)\n\t\t}\n\t}()\n")
+	if nres > 0 {
+		fmt.Fprintf(&src, "\t%s := %s\n", strings.Join(lhs, ", "), call)
+		for i := range lhs {
+			fmt.Fprintf(&src, "\tfmt.Printf(\"GOVC-RESULT %d %%s\\n\", govcSMT(reflect.ValueOf(&r%d).Elem()))\n", i, i)
+		}
+	} else {
+		fmt.Fprintf(&src, "\t%s\n", call)
+	}
+	fmt.Fprintf(&src, "\tfmt.Println(\"GOVC-DONE\")\n}\n%s", smtPrinterSrc)
+	rr.TestFile = src.String()
+	// 3. run it through an overlay
+	dir := filepath.Dir(P.Prog.Fset.Position(fn.Pos()).Filename)
+	tmp, _ := os.MkdirTemp("", "govc-replay-")
+	defer os.RemoveAll(tmp)
+	testFile := filepath.Join(tmp, "zz_govc_replay_test.go")
+	os.WriteFile(testFile, src.Bytes(), 0o644)
+	ov := map[string]any{"Replace": map[string]string{filepath.Join(dir, "zz_govc_replay_test.go"): testFile}}
+	ovData, _ := json.Marshal(ov)
+	ovFile := filepath.Join(tmp, "overlay.json")
+	os.WriteFile(ovFile, ovData, 0o644)
+	cmdline := []string{"go", "test", "-tags", "verif", "-overlay", ovFile, "-vet=off", "-count=1", "-timeout", "60s", "-run", "^TestGovcReplay$", "-v", "."}
+	rr.Command = "cd " + dir + " && ulimit -v 8000000 && " + strings.Join(cmdline, " ")
+	ctx, cancel := context.WithTimeout(context.Background(), 180*time.Second)
+	defer cancel()
+	cmd := exec.CommandContext(ctx, "bash", "-c", "ulimit -v 8000000; exec "+strings.Join(cmdline, " "))
+	cmd.Dir = dir
+	out, _ := cmd.CombinedOutput()
+	rr.Output = truncate(string(out), 3000)
+	if strings.Contains(string(out), "GOVC-PANIC") || strings.Contains(string(out), "panic:") || strings.Contains(string(out), "fatal error") {
+		if ob.Kind == "safe" || ob.Kind == "post" || ob.Kind == "pre" {
+			rr.Confirmed = true
+			rr.Note = "the real function panics on the model's input"
+		}
+		return rr
+	}
+	if !strings.Contains(string(out), "GOVC-DONE") {
+		rr.Note = "replay did not complete"
+		return rr
+	}
+	if ob.Kind != "post" {
+		rr.Note = "call completed; this obligation kind is not re-evaluated on concrete values"
+		return rr
+	}
+	// 4. re-evaluate the failed clause on concrete inputs/outputs
+	idx := strings.LastIndex(ob.Name, "#")
+	ci, err := strconv.Atoi(ob.Name[idx+1:])
+	if err != nil || ci < 1 || ci > len(c.Ensures) {
+		rr.Note = "clause not identified"
+		return rr
+	}
+	results := map[int]*Term{}
+	postCells := map[string]*Term{}
+	for _, line := range strings.Split(string(out), "\n") {
+		if strings.HasPrefix(line, "GOVC-CELL ") {
+			f := strings.SplitN(line, " ", 4)
+			so := dtSorts[f[2]]
+			if so == nil || strings.Contains(f[3], "?") {
+				continue
+			}
+			toks := tokenizeSExp(f[3])
+			sxv, _ := parseSX(toks, 0)
+			t, err := sxToTerm(sxv, so)
+			if err != nil {
+				continue
+			}
+			n, _ := strconv.ParseInt(f[1], 10, 64)
+			postCells[fmt.Sprintf("%s#%d", heapName(so), replayRefBase+n)] = t
+		}
+	}
+	for _, line := range strings.Split(string(out), "\n") {
+		if strings.HasPrefix(line, "GOVC-RESULT ") {
+			f := strings.SplitN(line, " ", 3)
+			i, _ := strconv.Atoi(f[1])
+			if strings.Contains(f[2], "?") {
+				rr.Note = "result " + f[1] + " is not first-order data"
+				return rr
+			}
+			toks := tokenizeSExp(f[2])
+			s, _ := parseSX(toks, 0)
+			t, err := sxToTerm(s, sortOf(fn.Signature.Results().At(i).Type()))
+			if err != nil {
+				rr.Note = "result " + f[1] + ": " + err.Error()
+				return rr
+			}
+			results[i] = t
+		}
+	}
+	confirmed, note := v.evalClauseConcrete(fn, c, ci-1, vals, results, heapCache, postCells)
+	rr.Confirmed = confirmed
+	rr.Note = note
+	return rr
+}
+
+// evalClauseConcrete decides requires ∧ ¬ensures[ci] for concrete values.
+func (v *Verifier) evalClauseConcrete(fn *ssa.Function, c *Contract, ci int, vals map[*ssa.Parameter]*Term, results map[int]*Term, heap map[string]*Term, postCells map[string]*Term) (ok bool, note string) {
+	defer func() {
+		if r := recover(); r != nil {
+			ok, note = false, fmt.Sprint("clause not evaluable on concrete values: ", r)
+		}
+	}()
+	st := newState()
+	fr := &Frame{fn: fn, block: fn.Blocks[0], visits: map[int]int{}, cuts: map[int]*cutInfo{}}
+	st.frames = []*Frame{fr}
+	for p, t := range vals {
+		st.env[p] = t
+	}
+	// heap cells read while building the literals
+	for k, t := range heap {
+		i := strings.LastIndex(k, "#")
+		hn, refs := k[:i], k[i+1:]
+		ref, err := strconv.ParseInt(strings.Trim(strings.ReplaceAll(strings.ReplaceAll(refs, "(- ", "-"), ")", ""), " "), 10, 64)
+		if err != nil {
+			continue
+		}
+		base, okh := st.heap[strings.TrimSuffix(hn, "@0")]
+		if !okh {
+			base = Var(hn, heapSort(t.Sort))
+		}
+		st.heap[strings.TrimSuffix(hn, "@0")] = Store(base, IntLit(ref), t)
+	}
+	saved := v.entry
+	v.entry = st.clone()
+	defer func() { v.entry = saved }()
+	pre := st.clone()
+	for k, t := range postCells {
+		i := strings.LastIndex(k, "#")
+		hn := k[:i]
+		ref, _ := strconv.ParseInt(k[i+1:], 10, 64)
+		base, okh := st.heap[hn]
+		if !okh {
+			base = Var(hn+"@0", heapSort(t.Sort))
+		}
+		st.heap[hn] = Store(base, IntLit(ref), t)
+	}
+	// objects created by the call are "fresh": below the water mark of the pre-state
+	env := &SpecEnv{v: v, st: st, pkg: c.Pkg.Types, vars: map[string]SVal{}, fr: fr, oldHeap: pre.heap, oldLW: IntLit(replayRefBase)}
+	for _, p := range fn.Params {
+		env.vars[p.Name()] = SVal{vals[p], p.Type()}
+	}
+	for i, n := range c.Results {
+		if t, ok := results[i]; ok {
+			env.vars[n] = SVal{t, fn.Signature.Results().At(i).Type()}
+		}
+	}
+	var hyp []*Term
+	for _, r := range c.Requires {
+		hyp = append(hyp, env.evalBool(r.Expr))
+	}
+	goal := env.evalBool(c.Ensures[ci].Expr)
+	sc := &Script{Prelude: loadPreludeCached, Asserts: append(hyp, Not(goal))}
+	text := sc.Render("", false)
+	tmp, _ := os.CreateTemp("", "govc-concrete-*.smt2")
+	tmp.WriteString(text)
+	tmp.Close()
+	defer os.Remove(tmp.Name())
+	a, out := runBackend(context.Background(), backends[0], tmp.Name(), 20)
+	switch a {
+	case "sat":
+		return true, "the real function's result violates the clause: " + c.Ensures[ci].Text
+	case "unsat":
+		return false, "model-spurious: the real function satisfies the clause on the model's input (an abstraction in the verifier is too coarse)"
+	}
+	return false, "concrete re-evaluation undecided: " + truncate(out, 200)
+}
+
+var loadPreludeCached string
